@@ -1,4 +1,4 @@
-"""PROTOTYPE C01: every write leaves a file that still parses."""
+"""C01: every write leaves a file that still parses."""
 import base64, collections, os, sys, warnings
 warnings.simplefilter("ignore")
 from vf import oracles as O
@@ -14,17 +14,16 @@ def judge(job, res):
         for e in run["trace"]:
             if e["k"] != "pipe" or e["before"] is None or e["after"] is None or e["before"] == e["after"]: continue
             name = os.path.basename(e["path"]); lab = tuple(job["labels"].get(name, ()))
-            try: bt = O.decode(unb(e["before"]))
-            except UnicodeDecodeError: continue
-            okb, _ = O.parses(bt)
+            bb, ab = unb(e["before"]), unb(e["after"])
+            okb, _ = O.parses(bb)                      # bytes: the compiler honours BOM and PEP 263 cookie itself
             if not okb: st["before_unparseable"] += 1; continue
             nt.append((job["cid"], name, job["id"])); st["fired:" + job["cid"]] += 1
-            try: at = O.decode(unb(e["after"]))
-            except UnicodeDecodeError:
-                v.append(Violation("C01", f"{job['cid'].split('/')[1]}/undecodable", "output is not UTF-8", {"codemod": job["cid"], "labels": lab})); continue
-            oka, err = O.parses(at)
+            oka, err = O.parses(ab)
             if oka is None or (okb == "compile" and oka != "compile"):
-                v.append(Violation("C01", f"{job['cid'].split('/')[1]}/invalid-syntax", f"rewritten file no longer parses: {err}", {"codemod": job["cid"], "labels": lab, "before": bt, "after": at}))
+                try: bt, at = O.decode(bb), ab.decode("utf-8", "replace")
+                except (UnicodeDecodeError, LookupError): bt, at = repr(bb), repr(ab)
+                kind = "undecodable-output" if "codec can't decode" in str(err) or "unicode error" in str(err) or "multibyte" in str(err) else "invalid-syntax"
+                v.append(Violation("C01", f"{job['cid'].split('/')[1]}/{kind}", f"rewritten file no longer parses: {err}", {"codemod": job["cid"], "labels": lab, "before": bt, "after": at}))
     return v, st, nt
 
 def main():
